@@ -1,6 +1,7 @@
 package harness
 
 import (
+	"context"
 	"encoding/json"
 	"fmt"
 	"strings"
@@ -69,6 +70,11 @@ func c06Cells(tier string) []Cell {
 
 		// a backend that lowers the TTL of one key's writes through the context it is handed
 		cells = append(cells, Cell{ID: c06Cell{Front: front, Path: "capBg", Caller: "none", Cancel: "never"}.id()})
+
+		// the backend Failover creates for itself, configured with a TimeToLive shorter than UpdateTTL
+		if front != 1 {
+			cells = append(cells, Cell{ID: c06Cell{Front: front, Path: "defaultBackend", Caller: "none", Cancel: "never"}.id()})
+		}
 
 		// builds that fail
 		for _, path := range []string{"failA", "failSu", "failBg"} {
@@ -256,6 +262,119 @@ func c06Cap(cc c06Cell, env *Env) CellResult {
 	})
 }
 
+// c06DefaultBackend: a Failover on the backend it creates itself (BackendConfig.TimeToLive 10s, shorter than
+// UpdateTTL). Black box: the stale copy re-stored for a failing update is served, without building, for UpdateTTL
+// (1m) - not for the backend's TimeToLive - and is stale again after that.
+func c06DefaultBackend(cc c06Cell, env *Env) CellResult {
+	res := CellResult{Exhaustive: true, Outcomes: map[string]int{}}
+	front := []string{"Failover (default backend)", "", "FailoverOf (default backend)"}[cc.Front]
+
+	var (
+		builds int
+		got    []string
+	)
+
+	body := func() {
+		vclock.Reset()
+
+		builds, got = 0, nil
+		fail := false
+		ctx := context.Background()
+		bcfg := cache.Config{TimeToLive: 10 * time.Second, ExpirationJitter: -1}
+
+		var get func() (int, error)
+
+		vsched.Construct(func() {
+			if cc.Front == 0 {
+				f := cache.NewFailover(cache.FailoverConfig{Name: "d", BackendConfig: bcfg}.Use)
+				get = func() (int, error) {
+					v, err := f.Get(ctx, []byte("k"), func(ctx context.Context) (interface{}, error) {
+						builds++
+						if fail {
+							return nil, errInjected
+						}
+
+						return builds, nil
+					})
+
+					n, _ := v.(int)
+
+					return n, err
+				}
+			} else {
+				f := cache.NewFailoverOf[int](cache.FailoverConfigOf[int]{Name: "d", BackendConfig: bcfg}.Use)
+				get = func() (int, error) {
+					return f.Get(ctx, []byte("k"), func(ctx context.Context) (int, error) {
+						builds++
+						if fail {
+							return 0, errInjected
+						}
+
+						return builds, nil
+					})
+				}
+			}
+		})
+
+		step := func(adv time.Duration, failing bool) {
+			vclock.Advance(adv)
+
+			fail = failing
+			v, err := get()
+			vsched.Join()
+
+			got = append(got, fmt.Sprintf("(%d,%v) builds=%d", v, err, builds))
+		}
+
+		step(0, false)              // built: 1
+		step(11*time.Second, true)  // stale 1 served, background update fails, stale copy re-stored for UpdateTTL
+		step(30*time.Second, false) // failure forgotten; the re-stored copy is still fresh: 1, no build
+		step(40*time.Second, false) // UpdateTTL is over: stale 1 served, background build
+	}
+
+	want := []string{"(1,<nil>) builds=1", "(1,<nil>) builds=2", "(1,<nil>) builds=2", "(1,<nil>) builds=3"}
+	seen := map[string]bool{}
+
+	check := func(r *vsched.Result) []Violation {
+		if r.Deadlock || r.Panic != nil {
+			return []Violation{{Signature: fmt.Sprintf("C06 %s fatal path=%s", front, cc.Path), Detail: fmt.Sprintf("deadlock=%v panic=%v", r.Deadlock, r.Panic)}}
+		}
+
+		if fmt.Sprint(got) != fmt.Sprint(want) {
+			return []Violation{{Signature: fmt.Sprintf("C06 %s refresh-ttl path=%s", front, cc.Path),
+				Detail: fmt.Sprintf("Get; +11s Get(failing update); +30s Get; +40s Get returned %v, want %v: the stale copy re-stored for the failing update is to be served for UpdateTTL (1m), whatever the backend's TimeToLive (10s)", got, want)}}
+		}
+
+		return nil
+	}
+
+	if env.Replay != nil {
+		res.Violations = check(vsched.Replay(env.Replay.Choices, body))
+		return res
+	}
+
+	st := vsched.Explore(vsched.Options{PreemptionBound: 2, EnvBound: 0, HBCache: true, Deadline: env.Deadline}, body, func(r *vsched.Result) bool {
+		for _, v := range check(r) {
+			if !seen[v.Signature] {
+				seen[v.Signature] = true
+				v.Choices = r.Choices()
+				res.Violations = append(res.Violations, v)
+			}
+		}
+
+		res.Outcomes[fmt.Sprint(got)]++
+
+		return true
+	})
+
+	res.Execs, res.States, res.Transitions = st.Execs, st.HBStates, st.Transitions
+	if !st.Exhaustive {
+		res.Exhaustive, res.CapHit = false, st.CapHit
+	}
+
+	return res
+}
+
 // c06SkipWaiter: a plain Get and a SkipRead Get on one stale key, all schedules: the SkipRead Get returns a built
 // value (its own build or the one it waited for), never the stale one.
 func c06SkipWaiter(cc c06Cell, env *Env) CellResult {
@@ -288,6 +407,10 @@ func c06Run(c Cell, env *Env) CellResult {
 
 	if cc.Path == "capBg" {
 		return c06Cap(cc, env)
+	}
+
+	if cc.Path == "defaultBackend" {
+		return c06DefaultBackend(cc, env)
 	}
 
 	if strings.HasPrefix(cc.Path, "skipW") {
@@ -602,7 +725,7 @@ func init() {
 	Register(&Prop{
 		ID: "C06", Title: "TTL and context travel through Failover as documented",
 		Cells: c06Cells, Run: c06Run,
-		Rule: "grid caller TTL {no cell, 0, 10s, 1h, -1s} x builder behaviour (every sequence of <=2 (quick: 73) / <=3 (thorough: 585) WithTTL(ctx,b,upd) calls, b in {0,5s,2h,-1s}, upd in {true,false}) x path {cold miss, sync update of a stale value, background update, waiter, cold miss and background update with NESTED builder scopes, SkipRead on a fresh entry; a SkipRead Get next to a plain Get on a stale key (sync / background update, SyncRead on / off); SkipRead on an absent / stale / too stale entry and with a failure cached for the key (uncancelled caller only); a build that FAILS on a cold miss / sync update / background update; a background build whose builder asks the front-end for another stale key with its own or a derived, deadlined context; a backend that lowers the TTL of one key's writes through the context it is handed} " +
+		Rule: "grid caller TTL {no cell, 0, 10s, 1h, -1s} x builder behaviour (every sequence of <=2 (quick: 73) / <=3 (thorough: 585) WithTTL(ctx,b,upd) calls, b in {0,5s,2h,-1s}, upd in {true,false}) x path {cold miss, sync update of a stale value, background update, waiter, cold miss and background update with NESTED builder scopes, SkipRead on a fresh entry; a SkipRead Get next to a plain Get on a stale key (sync / background update, SyncRead on / off); SkipRead on an absent / stale / too stale entry and with a failure cached for the key (uncancelled caller only); a build that FAILS on a cold miss / sync update / background update; a background build whose builder asks the front-end for another stale key with its own or a derived, deadlined context; a backend that lowers the TTL of one key's writes through the context it is handed; the self-created default backend with TimeToLive < UpdateTTL (black box)} " +
 			"x caller context {never cancelled, cancelled before, cancelled after, carrying a deadline} x 3 front-ends; each case under the scheduler with all schedules (unbounded, HB cached); a recording backend wrapper notes TTL(ctx) of every Write, the builder notes Err/Done/Deadline/Value of its context",
 		Assumptions: []string{
 			"'smallest non-zero' is taken over signed durations (a negative TTL is smaller than any positive one), as the implementation's comparison does",
